@@ -38,7 +38,7 @@ def plan(tier, seed, rng):
     # this property IS the per-ISA property and its instances are cheap: the quick tier covers all six ISA flag sets, not a seeded subset
     # (a seeded defect living in the non-FMA AVX branch was only caught under the seeds that happened to draw -mavx)
     have = {c.isa for c in cfgs if c.opt == "-O2" and c.asserts}
-    for isa in ALL_ISAS:
+    for isa in ALL_ISAS + ["avx512f"]:
         if isa not in have:
             cfgs.append(Config(isa, "c++14", "-O2", True, "g++", (), ("-ffp-contract=off",)))
     for cfg in cfgs:
